@@ -78,14 +78,14 @@ Definition str_is (s : list N) (lit : string) : bool := str_eqb s (s2l lit).
 Definition decode_line (dec : decoder) (name : list N) (ps : params) (vals : list N) : res (list (list N)) :=
   let key := type_key name in
   let tz := dict_get (s2l "TZID") ps in
-  (* the comparisons with 'FREEBUSY' and datetime_names use the RAW name, as the code does *)
-  if str_is name "FREEBUSY" then dec_all dec key tz (split_chr 44 vals)
-  else if mem_str name datetime_names then
+  (* the comparisons with 'FREEBUSY' and datetime_names use the upper-cased name (fixed in /repo) *)
+  if str_is (upper name) "FREEBUSY" then dec_all dec key tz (split_chr 44 vals)
+  else if mem_str (upper name) datetime_names then
          match tz with Some _ => dec_all dec key tz [vals] | None => dec_all dec key None [vals] end
   else dec_all dec key None [vals].
 
-Definition step (dec : decoder) (s : pstate) (line : list N) : outcome :=
-  match parts line with
+Definition step_parts (dec : decoder) (s : pstate) (r : res (list N * params * list N)) : outcome :=
+  match r with
   | ValueErr =>
       match stack s with
       | f :: r => if ignores (f_name f) then Next {| stack := add_err f None :: r; done := done s; cache := cache s |}
@@ -107,8 +107,8 @@ Definition step (dec : decoder) (s : pstate) (line : list N) : outcome :=
                       | [] => {| stack := []; done := done s ++ [close f]; cache := cache s |}
                       | g :: r => {| stack := add_sub g (close f) :: r; done := done s; cache := cache s |}
                       end in
-            (* if vals == 'VTIMEZONE' and 'TZID' in component: tzp.cache_timezone_component(component) *)
-            if str_is vals "VTIMEZONE" && match dict_get (s2l "TZID") (f_props f) with Some _ => true | None => false end
+            (* if vals.upper() == 'VTIMEZONE' and 'TZID' in component: tzp.cache_timezone_component(component) *)
+            if str_is (upper vals) "VTIMEZONE" && match dict_get (s2l "TZID") (f_props f) with Some _ => true | None => false end
             then match cache s1 with
                  | [] => Next s1            (* no recorded outcome left: the call is taken to return normally *)
                  | Ok _ :: c' => Next {| stack := stack s1; done := done s1; cache := c' |}
@@ -136,6 +136,8 @@ Definition step (dec : decoder) (s : pstate) (line : list N) : outcome :=
             end
         end
   end.
+
+Definition step (dec : decoder) (s : pstate) (line : list N) : outcome := step_parts dec s (parts line).
 
 Fixpoint run_lines (dec : decoder) (s : pstate) (lines : list (list N)) : res pstate :=
   match lines with
